@@ -1045,4 +1045,6 @@ func TestVerifH5(t *testing.T) {
 		_ = seen
 		w.finish()
 	})
+	// concurrent writers that give up, WriteTo racing Close, Dial after Close (h5_writers_test.go)
+	runH5Writers(t, vt)
 }
